@@ -186,6 +186,36 @@ type escape struct {
 // removed, which returns can still carry a value of the closure of src? A phi
 // passes the value on only along incoming edges that remain traversable.
 func unsanitisedReturns(fn *ssa.Function, at ssa.Instruction, src ssa.Value, cut EdgeSet) []escape {
+	out0 := unwrappedEscapes(fn, src)
+	return append(out0, unsanitisedReturns1(fn, at, src, cut)...)
+}
+
+// unwrappedEscapes: `errors.Unwrap(err)` (or errors.Cause-like helpers of the same name)
+// yields a new error value about which the tests made on err say nothing: the cause of a
+// wrapped error that is not io.EOF may well be io.EOF. Each such value has to be
+// sanitised on its own.
+func unwrappedEscapes(fn *ssa.Function, src ssa.Value) []escape {
+	var out []escape
+	closure := flowClosure(src)
+	eachInstr(fn, func(in ssa.Instruction) {
+		ci, ok := in.(*ssa.Call)
+		if !ok || len(ci.Call.Args) != 1 {
+			return
+		}
+		f := calleeFunc(ci.Common())
+		if f == nil || f.Pkg() == nil || f.Pkg().Path() != "errors" || f.Name() != "Unwrap" {
+			return
+		}
+		if !closure[ci.Call.Args[0]] && !closure[strip(ci.Call.Args[0])] {
+			return
+		}
+		vals := flowClosure(ci)
+		out = append(out, unsanitisedReturns1(fn, ci, ci, edgeSet(eofNotEqualEdges(fn, vals)))...)
+	})
+	return out
+}
+
+func unsanitisedReturns1(fn *ssa.Function, at ssa.Instruction, src ssa.Value, cut EdgeSet) []escape {
 	reachable := reach(fn, at.Block(), cut)
 	traversable := func(pred, succ *ssa.BasicBlock) bool {
 		if !reachable[pred] {
